@@ -353,6 +353,10 @@ func init() {
 			rules.K3(rc, fileFilter("eng_arith.go", "eng_minmaxbetween.go", "eng_arith_manual.go"), 30, 430)
 			rules.M2(rc, mGroup("arith", "minmax"), 16, 350)
 			rules.L0(rc, nil)
+			rules.M4(rc, mGroup("arith", "minmax"), 16)
+			rules.K1op(rc, []string{"api_arith.go", "api_minmax.go", "dense_arith.go", "defaultengine_arith.go", "defaultengine_minmax.go"}, 20)
+			rules.K5(rc, map[string]bool{"eng_arith.go": true, "eng_minmaxbetween.go": true}, 10)
+			rules.K11(rc)
 		},
 	})
 	register(&Property{
@@ -368,6 +372,10 @@ func init() {
 			rules.K3(rc, fileFilter("eng_cmp.go"), 24, 345)
 			rules.M2(rc, mGroup("cmp"), 12, 300)
 			rules.L0(rc, nil)
+			rules.M4(rc, mGroup("cmp"), 12)
+			rules.K1op(rc, []string{"api_cmp.go", "dense_cmp.go", "defaultengine_cmp.go"}, 20)
+			rules.K5(rc, map[string]bool{"eng_cmp.go": true}, 10)
+			rules.K11(rc)
 		},
 	})
 	register(&Property{
@@ -383,6 +391,10 @@ func init() {
 			rules.K3(rc, fileFilter("eng_unary.go", "eng_map.go"), 30, 250)
 			rules.M2(rc, mGroup("unary"), 15, 178)
 			rules.L0(rc, nil)
+			rules.M4(rc, mGroup("unary"), 15)
+			rules.K1op(rc, []string{"api_unary.go", "defaultengine_unary.go", "defaultengine_misc.go"}, 10)
+			rules.K5(rc, map[string]bool{"eng_unary.go": true, "eng_map.go": true}, 10)
+			rules.K11(rc)
 		},
 	})
 	register(&Property{
@@ -398,6 +410,9 @@ func init() {
 			rules.K2(rc, fams, nil, 2550)
 			rules.K9(rc, fams, 120)
 			rules.K8(rc, 100)
+			rules.K5(rc, map[string]bool{"eng_arith.go": true, "eng_cmp.go": true, "eng_unary.go": true, "eng_minmaxbetween.go": true, "eng_map.go": true, "eng_reduce.go": true, "eng_argmethods.go": true, "reduction_specialization.go": true}, 100)
+			rules.K11(rc)
+			rules.K1op(rc, []string{"api_arith.go", "api_cmp.go", "api_unary.go", "api_minmax.go", "dense_arith.go", "dense_cmp.go", "defaultengine_arith.go", "defaultengine_cmp.go", "defaultengine_unary.go", "defaultengine_minmax.go"}, 90)
 		},
 	})
 }
